@@ -112,7 +112,12 @@ func (c *ConfigManager) ReloadFromRaw(data []byte) (err error) {
 	// config hash don't include external labels
 	eLb := info.Config.GlobalConfig.ExternalLabels
 	info.Config.GlobalConfig.ExternalLabels = []labels.Label{}
-	hash, err := hashstructure.Hash(info.Config, hashstructure.FormatV2, nil)
+	// hashstructure only sees exported fields: relabel regexes (and every other type without exported fields)
+	// would not change the hash, so the rendered config - which prints them, and masks secrets - is hashed along
+	hash, err := hashstructure.Hash(struct {
+		Config *config.Config
+		Text   string
+	}{info.Config, info.Config.String()}, hashstructure.FormatV2, nil)
 	if err != nil {
 		return errors.Wrapf(err, "get config hash")
 	}
